@@ -173,6 +173,12 @@ class Run:
                 setattr(owner, "r%d" % r["rid"], op[2]); out = ["ok"]
             elif t == "recalc":
                 mx.set_recalc(op[1]); out = ["ok"]
+            elif t == "tracecycle":
+                import warnings as _w
+                with _w.catch_warnings():
+                    _w.simplefilter("ignore")
+                    mx.start_stacktrace(); mx.stop_stacktrace()
+                out = ["ok"]
             else:
                 raise RuntimeError("unknown op %r" % (op,))
         except BaseException as e:      # anything unexpected is reported, not swallowed
